@@ -760,6 +760,11 @@ def c02 (cfg : Cfg) (tr : List TE) : List Viol :=
   let (_, _, _, _, vs) := (steps tr).foldl
     (fun (acc : Hist × List (Bytes × Bytes × UInt8 × Bool) × List (UInt16 × UInt16) × List (UInt16 × UInt16 × Nat) × List Viol) s =>
     let (h, seen, regacked, regTimes, vs) := acc
+    -- a broker that reuses a message ID (QoS > 0) which is still in flight overwrites its own earlier exchange:
+    -- a REGISTER issued under that ID no longer waits for anything
+    let regTimes := match s.mqIn with
+      | some (.publish _ q _ m _ _) => if q != 0 then regTimes.filter (fun e => e.1 != m) else regTimes
+      | _ => regTimes
     let h' := h.afterStep s
     let v (sig : String) (d : String) : List Viol := [{ sig := sig, detail := s!"t={s.t} {d}" }]
     -- broker PUBLISHes seen so far, including this step's
